@@ -152,7 +152,13 @@ func (c *Ctx) Fail(f Finding) {
 		}
 	}
 	c.failCount++
-	if len(c.findings) < 5 {
+	same := 0
+	for _, g := range c.findings {
+		if g.Sig == f.Sig {
+			same++
+		}
+	}
+	if same < 3 && len(c.findings) < 9 {
 		c.findings = append(c.findings, f)
 	}
 }
